@@ -1,5 +1,37 @@
 //@@ unit props=C14,C06 rlimit=200
-// Unit xlsfml: the BIFF8 token renderer `parse_formula` of src/xls.rs (verbatim text, one 320-line function) under Verus.
+// Unit xlsfml: the BIFF8 token renderer `parse_formula` of src/xls.rs (verbatim text, one 320-line function: Ptg tokens -> A1 text).
+//
+// WHAT IS UNDER CONTRACT
+//   * entry copy (module m_entry, `parse_formula`, no hypotheses): every implicit obligation of the function (slice bounds, index, overflow,
+//     unwrap, termination) -> C06; and the structural invariant (S) "the offsets on `stack` are ascending char boundaries of `formula`", which
+//     discharges every byte-offset String operation (`insert`, `split_off`, `&fargs[a..b]`) for ALL inputs, malformed ones included.
+//   * functional copies (modules m_wf0 .. m_wf7, `parse_formula@wf0` .. `@wf7`, hypothesis: the oracle accepts the token stream):
+//         C14.formula_text_is_a1_rendering:   res == Ok(text)  with  Some(text) == render(rgce, sheets, names, xtis, encoding)
+//     proved by the loop invariant `inv` (F): the oracle's run over the remaining bytes from the operand stack `ops` is the formula's rendering,
+//     `formula` is the concatenation of the rendered operands and `stack` holds their start offsets.  One iteration = one oracle step:
+//     every arm calls its `step_*` lemma, whose labelled `requires` are the named obligations on what the code did (token length, operand text,
+//     offset bookkeeping, operator position, argument order ..).
+//   * the same real function text is verified in 8 functional copies (rule R16 `case_split`): copy k keeps a few arms of `match ptg`, the other
+//     arms are cut there and verified in their own copy; splice checks that the kept sets cover all 27 arms.  Reason: one SMT query holding the
+//     terms of all 27 arms did not finish in 15 minutes, the 8 queries take 1 - 3 s each.
+//   * known deviations of the code are pinned to small lemmas (`ptgref_dollars`, `ptgref3d_reference`, `ptgarea_text`, `ptg3d_sheet`,
+//     `binary_symbol`, `ptgstr_length`): hypothesis = what the code does (checked against the real code at the call), conclusion = what
+//     [MS-XLS] requires; the conclusions that do not follow are the registered findings.
+//
+// ORACLE (written from [MS-XLS] 2.5.198 and the property text, independent of the code): `decode` (token at the head of a byte string: its
+//   effect `Tok` on the stack of rendered operands and its size), `apply`, `step`, `run`, `render`; texts `cell_text` (RgceLoc: `$` exactly on the
+//   absolute components, bijective base-26 column letters, row + 1 in decimal), `area_text`, `sheet_name` (ixti -> XTI -> sheet), `binop`,
+//   `err_text`, `join`.  Outside its scope (nothing claimed): PtgExp, PtgTbl, PtgArray, PtgNameX, PtgMem*, PtgRefN/AreaN, PtgElf*, PtgAttrSpace,
+//   3-D references to a range of sheets or another workbook, user-defined (iftab 255) and command-equivalent functions; quoting of sheet names.
+//
+// STRING MODEL (assumed, one line each, `TRUSTED`): a String is its `Seq<char>` (vstd's view); `String::len` is `blen` = the sum of the UTF-8
+//   widths of its chars, so byte offsets are exact for non-ASCII text too; `insert` / `split_off` / `&s[a..b]` require char boundaries (`is_bnd`)
+//   and act at the char index `cidx`; `write!` / `format!` with plain `{}` strings are expanded by rule R13 into literal pieces and `Display`
+//   texts (`display::<u16 / u32>` = decimal digits `dec`, `&str` / `String` = the text, `f64` uninterpreted).
+//
+// Callees assumed: read_u16/u32/f64 (common/bytes.rs, Kani), push_column (unit colname; lemma_colname_contract derives the equation used here
+//   from colname's three clauses), read_unicode_string_no_cch (unit xlsstr C19.nocch_text), the tables FTAB / FTAB_ARGC (values hidden: only
+//   their length is used; the oracle takes names and fixed parameter counts from them).
 #![feature(allocator_api)]
 #![allow(unused_imports, dead_code, unused_variables, unused_mut, unused_assignments, unexpected_cfgs, deprecated)]
 use vstd::prelude::*;
@@ -116,7 +148,7 @@ pub open spec fn xl_width(hb: bool) -> int { if hb { 2 } else { 1 } }
     ensures
         buf@.len() >= 1 && buf@.len() - 1 >= *len * xl_width(buf@[0] & 0x1 != 0)
             ==> final(s)@ == old(s)@ + xl_chars(*encoding, buf@[0] & 0x1 != 0, buf@.subrange(1, 1 + *len * xl_width(buf@[0] & 0x1 != 0))),
-        final(s)@.len() >= old(s)@.len() && final(s)@.take(old(s)@.len() as int) == old(s)@,
+        ext(old(s)@, final(s)@),
 { unimplemented!() }
 
 // the contract of utils::push_column, in the words of unit colname (same spec text)
@@ -132,6 +164,7 @@ pub open spec fn appended(old: Seq<char>, new: Seq<char>) -> Seq<char> { new.sub
     ensures final(buf)@ == old(buf)@ + col_name(col as int),
 { unimplemented!() }
 
+//@@ props C14
 // =====================================================================================================================
 // ORACLE, written from [MS-XLS] 2.5.198 (formula tokens, BIFF8) and the property text -- independent of the code
 // =====================================================================================================================
@@ -509,6 +542,7 @@ proof fn lemma_bnd_idx(s: Seq<char>, b: int)
     assert(s.take(s.len() as int) =~= s);
 }
 
+//@@ props C06
 // =====================================================================================================================
 // (S) structural invariant of the renderer's state: the stack holds ascending char boundaries of the text  (no String panic: C06)
 // =====================================================================================================================
@@ -577,6 +611,7 @@ proof fn lemma_struct(f: Seq<char>, st: Seq<usize>, j: int, f_out: Seq<char>, st
     }
 }
 
+//@@ props C14
 // =====================================================================================================================
 // (F) functional invariant: the text is the concatenation of the rendered operands, the stack holds their start offsets
 // =====================================================================================================================
@@ -743,6 +778,16 @@ proof fn lemma_arm_binary(rg: Seq<u8>, ops: Seq<Seq<char>>, c: Ctx, f: Seq<char>
     }
 }
 /// bit masks of the code, in the arithmetic of the oracle
+proof fn lemma_u16_masks()
+    ensures
+        forall|x: u16| #![trigger x & 0x3FFF] (x & 0x3FFF) as int == (x as int) % 16384,
+        forall|x: u16| #![trigger x & 0x4000] (x & 0x4000 == 0) == (((x as int) / 16384) % 2 == 0),
+        forall|x: u16| #![trigger x & 0x8000] (x & 0x8000 == 0) == (((x as int) / 32768) % 2 == 0),
+{
+    assert forall|x: u16| #![trigger x & 0x3FFF] (x & 0x3FFF) as int == (x as int) % 16384 by { assert(x & 0x3FFF == x % 16384) by (bit_vector); }
+    assert forall|x: u16| #![trigger x & 0x4000] (x & 0x4000 == 0) == (((x as int) / 16384) % 2 == 0) by { assert((x & 0x4000 == 0) == ((x / 16384) % 2 == 0)) by (bit_vector); }
+    assert forall|x: u16| #![trigger x & 0x8000] (x & 0x8000 == 0) == (((x as int) / 32768) % 2 == 0) by { assert((x & 0x8000 == 0) == ((x / 32768) % 2 == 0)) by (bit_vector); }
+}
 proof fn lemma_byte_masks()
     ensures
         forall|b: u8| #![trigger b & 0x3F] (b & 0x3F) as int == (b as int) % 64,
@@ -767,13 +812,6 @@ proof fn lemma_arm_none(rg: Seq<u8>, ops: Seq<Seq<char>>, c: Ctx, f: Seq<char>, 
 {
     reveal(arm_ok);
 }
-/// what the loop invariant gets out of an iteration
-proof fn lemma_arm_ok_use(rg: Seq<u8>, ops: Seq<Seq<char>>, c: Ctx, f: Seq<char>, st: Seq<usize>, rg_out: Seq<u8>, f_out: Seq<char>, st_out: Seq<usize>)
-    ensures arm_ok(rg, ops, c, f, st, rg_out, f_out, st_out) && repr(f, st, ops) && step(rg, ops, c) is Some
-        ==> rg_out == rg.skip(step(rg, ops, c)->Some_0.0) && repr(f_out, st_out, step(rg, ops, c)->Some_0.1),
-{
-    reveal(arm_ok);
-}
 proof fn lemma_repr_basics(f: Seq<char>, st: Seq<usize>, ops: Seq<Seq<char>>)
     ensures
         repr(f, st, ops) ==> st.len() == ops.len(),
@@ -785,9 +823,6 @@ proof fn lemma_repr_basics(f: Seq<char>, st: Seq<usize>, ops: Seq<Seq<char>>)
     assert(cat(Seq::<Seq<char>>::empty()) =~= Seq::<char>::empty());
 }
 
-/// the state around one loop iteration: token bytes / operand stack / text / offsets before, and bytes / text / offsets after
-struct ArmIO { rg: Seq<u8>, ops: Seq<Seq<char>>, c: Ctx, f: Seq<char>, st: Seq<usize>, rg_out: Seq<u8>, f_out: Seq<char>, st_out: Seq<usize> }
-spec fn io_ok(a: ArmIO) -> bool { arm_ok(a.rg, a.ops, a.c, a.f, a.st, a.rg_out, a.f_out, a.st_out) }
 
 // ---- function calls: the arguments are cut out of the text one by one and written back with commas
 /// the first k arguments, each followed by a comma
@@ -1146,6 +1181,7 @@ proof fn lemma_skip_skip(s: Seq<u8>, a: int, b: int)
     assert(s.subrange(a, s.len() as int).subrange(b, s.len() - a) =~= s.skip(a + b));
 }
 
+//@@ props C06
 // =====================================================================================================================
 // (S) in the entry copy: every arm leaves the stack holding ascending char boundaries of the text
 // =====================================================================================================================
@@ -1256,6 +1292,7 @@ proof fn lemma_s_window(q: Seq<char>, offs: Seq<usize>, k: int)
     reveal(sorted_bnds);
 }
 
+//@@ props C14
 // =====================================================================================================================
 // Token kinds whose rendering is KNOWN to deviate (registered findings).  Each lemma takes what the code does as its hypothesis
 // (checked against the real code where the lemma is called) and states what [MS-XLS] requires as its conclusion; the conclusions
@@ -1291,6 +1328,7 @@ proof fn ptgref3d_reference(colu: u16, h1: Seq<char>, h2: Seq<char>, h3: Seq<cha
         //# C14.ptgref3d_row_dollar_iff_absolute
         h4 == h3 + dollar(!f_row_rel(colu as int)),
 {
+    lemma_u16_masks();
     lemma_push_add(h1, '!'); lemma_push_add(h1.push('!'), '$'); lemma_push_add(h3, '$');
     lemma_assoc(h1, seq!['!'], seq!['$']);
 }
@@ -1341,6 +1379,7 @@ proof fn ptgstr_length(cch: int, hb: bool, adv: int)
         adv == 2 + cch * xl_width(hb),
 {}
 
+//@@ props C14
 // =====================================================================================================================
 // The loop invariant of the functional copy, as one opaque predicate (so that re-establishing it after the `match` is a look-up)
 // =====================================================================================================================
@@ -1376,6 +1415,7 @@ proof fn lemma_advance(all: Seq<u8>, c: Ctx, rg: Seq<u8>, ops: Seq<Seq<char>>, f
     reveal(arm_ok);
 }
 
+//@@ props C14
 /// function arm, step 1: the offsets of the last `ops.len() - k` operands were split off the stack
 proof fn lemma_func_prep(f: Seq<char>, st: Seq<usize>, ops: Seq<Seq<char>>, k: int, a0: Seq<usize>)
     requires repr(f, st, ops), 0 <= k < ops.len(), a0 == st.subrange(k, st.len() as int),
@@ -1418,10 +1458,10 @@ proof fn lemma_func_offs_push(q: Seq<char>, a1: Seq<usize>, aa: Seq<Seq<char>>, 
     assert(a2.take(aa.len() as int) =~= a1);
 }
 
-pub mod m_wf {
+pub mod m_wf0 {
 use super::*;
 verus! {
-//@@ fn src/xls.rs parse_formula props=C14 alias=wf ret=res r13 mutparams
+//@@ fn src/xls.rs parse_formula props=C14 ret=res r13 mutparams alias=wf0
 //@@ r6 3
 //@@ sig
     requires
@@ -1779,8 +1819,281 @@ verus! {
     proof {
         lemma_inv_use(__p_rgce@, ctx, rgce@, ops, formula@, stack@);
     }
+//@@ case_split /rgce = &rgce\[1\.\.\];\s*match ptg \{/ keep=0,1
 //@@ end
 }
+}
+
+pub mod m_wf1 {
+use super::*;
+verus! {
+//@@ fn src/xls.rs parse_formula props=C14 ret=res r13 mutparams alias=wf1 same_as=wf0
+//@@ case_split /rgce = &rgce\[1\.\.\];\s*match ptg \{/ keep=2,3,4,25,26
+//@@ end
+}
+}
+
+pub mod m_wf2 {
+use super::*;
+verus! {
+//@@ fn src/xls.rs parse_formula props=C14 ret=res r13 mutparams alias=wf2 same_as=wf0
+//@@ case_split /rgce = &rgce\[1\.\.\];\s*match ptg \{/ keep=5,6,7,8,9,10
+//@@ end
+}
+}
+
+pub mod m_wf3 {
+use super::*;
+verus! {
+//@@ fn src/xls.rs parse_formula props=C14 ret=res r13 mutparams alias=wf3 same_as=wf0
+//@@ case_split /rgce = &rgce\[1\.\.\];\s*match ptg \{/ keep=11,12,13
+//@@ end
+}
+}
+
+pub mod m_wf4 {
+use super::*;
+verus! {
+//@@ fn src/xls.rs parse_formula props=C14 ret=res r13 mutparams alias=wf4 same_as=wf0
+//@@ case_split /rgce = &rgce\[1\.\.\];\s*match ptg \{/ keep=14,15,16,17,18
+//@@ end
+}
+}
+
+pub mod m_wf5 {
+use super::*;
+verus! {
+//@@ fn src/xls.rs parse_formula props=C14 ret=res r13 mutparams alias=wf5 same_as=wf0
+//@@ case_split /rgce = &rgce\[1\.\.\];\s*match ptg \{/ keep=19
+//@@ end
+}
+}
+
+pub mod m_wf6 {
+use super::*;
+verus! {
+//@@ fn src/xls.rs parse_formula props=C14 ret=res r13 mutparams alias=wf6 same_as=wf0
+//@@ case_split /rgce = &rgce\[1\.\.\];\s*match ptg \{/ keep=20,21
+//@@ end
+}
+}
+
+pub mod m_wf7 {
+use super::*;
+verus! {
+//@@ fn src/xls.rs parse_formula props=C14 ret=res r13 mutparams alias=wf7 same_as=wf0
+//@@ case_split /rgce = &rgce\[1\.\.\];\s*match ptg \{/ keep=22,23,24
+//@@ end
+}
+}
+
+pub mod m_entry {
+use super::*;
+verus! {
+//@@ fn src/xls.rs parse_formula props=C06 entry ret=res r13 mutparams
+//@@ r6 3
+//@@ body
+    broadcast use group_ext, axiom_str_index_range, axiom_string_index_req_range;
+//@@ before /while !rgce\.is_empty\(\)/
+    proof { lemma_sb_last(formula@, stack@); }
+//@@ loop 0
+        invariant
+            //# C06.stack_offsets_are_ascending_char_boundaries
+            sorted_bnds(formula@, stack@),
+        decreases rgce@.len(),
+//@@ before /let ptg = rgce\[0\];/
+        broadcast use group_ext, axiom_str_index_range, axiom_string_index_req_range;
+        let ghost f_in = formula@;
+        let ghost st_in = stack@;
+        proof {
+            lemma_sb_last(f_in, st_in);
+            if st_in.len() > 0 { lemma_s_top(f_in, st_in); }
+        }
+//@@ before /\}\s*0x3b \| 0x5b \| 0x7b =>/
+                proof {
+                    lemma_s_append(f_in, st_in, formula@, stack@);
+                }
+//@@ before /\}\s*0x3c \| 0x5c \| 0x7c =>/
+                proof {
+                    lemma_s_append(f_in, st_in, formula@, stack@);
+                }
+//@@ before /\}\s*0x3d \| 0x5d \| 0x7d =>/
+                proof {
+                    lemma_s_append(f_in, st_in, formula@, stack@);
+                }
+//@@ before /\}\s*0x01 =>/
+                proof {
+                    lemma_s_append(f_in, st_in, formula@, stack@);
+                }
+//@@ before /\}\s*0x03\.\.=0x11 =>/
+                proof {
+                    lemma_s_append(f_in, st_in, formula@, stack@);
+                }
+//@@ before /\}\s*0x12 =>/
+                proof {
+                    if st_in.len() > 0 { lemma_s_cut(f_in, st_in, st_in.len() - 1, formula@, stack@); }
+                }
+//@@ before /\}\s*0x13 =>/
+                proof {
+                    if st_in.len() > 0 { lemma_s_cut(f_in, st_in, st_in.len() - 1, formula@, stack@); }
+                }
+//@@ before /\}\s*0x14 =>/
+                proof {
+                    if st_in.len() > 0 { lemma_s_cut(f_in, st_in, st_in.len() - 1, formula@, stack@); }
+                }
+//@@ before /\}\s*0x15 =>/
+                proof {
+                    lemma_s_append(f_in, st_in, formula@, stack@);
+                }
+//@@ before /\}\s*0x16 =>/
+                proof {
+                    if st_in.len() > 0 { lemma_s_cut(f_in, st_in, st_in.len() - 1, formula@, stack@); }
+                }
+//@@ before /\}\s*0x17 =>/
+                proof {
+                    lemma_s_append(f_in, st_in, formula@, stack@);
+                }
+//@@ before /\}\s*0x18 =>/
+                proof {
+                    lemma_s_append(f_in, st_in, formula@, stack@);
+                }
+//@@ before /\}\s*0x1C =>/
+                proof {
+                    if etpg == 0x10 { lemma_s_cut(f_in, st_in, st_in.len() - 1, formula@, stack@); }
+                }
+//@@ before /\}\s*0x1D =>/
+                proof {
+                    lemma_s_append(f_in, st_in, formula@, stack@);
+                }
+//@@ before /\}\s*0x1E =>/
+                proof {
+                    lemma_s_append(f_in, st_in, formula@, stack@);
+                }
+//@@ before /\}\s*0x1F =>/
+                proof {
+                    lemma_s_append(f_in, st_in, formula@, stack@);
+                }
+//@@ before /\}\s*0x20 \| 0x40 \| 0x60 =>/
+                proof {
+                    lemma_s_append(f_in, st_in, formula@, stack@);
+                }
+//@@ before /\}\s*0x21 \| 0x22 \| 0x41/
+                proof {
+                    lemma_s_append(f_in, st_in, formula@, stack@);
+                }
+//@@ before /\}\s*0x24 \| 0x44 \| 0x64 =>/
+                proof {
+                    lemma_s_append(f_in, st_in, formula@, stack@);
+                }
+//@@ before /\}\s*0x25 \| 0x45 \| 0x65 =>/
+                proof {
+                    lemma_s_append(f_in, st_in, formula@, stack@);
+                }
+//@@ before /\}\s*0x2A \| 0x4A \| 0x6A =>/
+                proof {
+                    lemma_s_append(f_in, st_in, formula@, stack@);
+                }
+//@@ before /\}\s*0x2B \| 0x4B \| 0x6B =>/
+                proof {
+                    lemma_s_append(f_in, st_in, formula@, stack@);
+                }
+//@@ before /\}\s*0x39 \| 0x59 =>/
+                proof {
+                    lemma_s_append(f_in, st_in, formula@, stack@);
+                }
+//@@ before /\}\s*_ => \{\s*return Err\(XlsError::Unrecognized \{\s*typ: \"ptg\"/
+                proof {
+                    lemma_s_append(f_in, st_in, formula@, stack@);
+                }
+//@@ after /read_unicode_string_no_cch\([^;]*;/
+                proof { ext_trans(f_in, f_in.push('"'), formula@); }
+//@@ before /formula\.insert\(e, space\);/
+                            broadcast use group_ext;
+                            let ghost fb = formula@;
+                            proof { lemma_s_top(fb, stack@); }
+//@@ after /formula\.insert\(e, space\);/
+                            proof { lemma_s_cut(fb, stack@, stack@.len() - 1, formula@, stack@); }
+//@@ loop 1
+                            invariant
+                                sorted_bnds(formula@, stack@), stack@.len() > 0, e == stack@.last(),
+//@@ after /let mut args = stack\.split_off\(args_start\);/
+                    let ghost k0 = args_start as int;
+                    let ghost a0 = args@;
+                    proof { lemma_s_mono(f_in, st_in, k0); assert(a0 =~= st_in.skip(k0)); }
+//@@ after /let start = args\[0\];/
+                    proof {
+                        assert forall|i: int| 0 <= i < a0.len() implies (#[trigger] a0[i]) >= start by { assert(a0[i] == st_in[k0 + i]); assert(st_in[k0] <= st_in[k0 + i]); }
+                        lemma_s_cut(f_in, st_in, k0, f_in.take(cidx(f_in, st_in[k0] as int)), st_in.take(k0));
+                    }
+//@@ loop 2 it2
+                        invariant
+                            it2.seq().len() == a0.len(), a0.len() == argc, argc > 0,
+                            forall|i: int| 0 <= i < a0.len() ==> *(#[trigger] it2.seq()[i]) == a0[i],
+                            forall|i: int| 0 <= i < a0.len() ==> (#[trigger] a0[i]) >= start,
+                            forall|i: int| 0 <= i < it2.index@ ==> *final(#[trigger] it2.seq()[i]) == a0[i] - start,
+//@@ before /\*s -= start;/
+                        proof { assert(*s == a0[it2.index@ as int]); }
+//@@ before /for w in args\.windows\(2\)/
+                    let ghost mut k3: int = 0;
+                    let ghost base = f_in.take(cidx(f_in, st_in[k0] as int));
+                    let ghost hd = formula@;
+                    proof {
+                        assert(args@.len() == args.len());
+                        assert forall|i: int| 0 <= i < st_in.len() - k0 implies (#[trigger] args@[i]) as int == st_in[k0 + i] - st_in[k0] by { assert(a0[i] == st_in[k0 + i]); }
+                        lemma_s_suffix(f_in, st_in, k0, args@);
+                        ext_len(base, hd);
+                    }
+//@@ loop 3
+                        invariant
+                            __it3.obeys_prophetic_iter_laws(), win_from(args@, 2, k3, __it3.remaining()),
+                            0 <= k3 <= argc, args@.len() == argc + 1, argc > 0,
+                            sorted_bnds(fargs@, args@),
+                            ext(hd, formula@), stack@ == st_in.take(k0).push(st_in[k0]),
+                        ensures
+                            k3 == argc,
+                        decreases argc - k3,
+//@@ before /formula\.push_str\(&fargs\[w\[0\]\.\.w\[1\]\]\);/
+                        broadcast use group_ext, axiom_str_index_range, axiom_string_index_req_range;
+                        proof {
+                            assert(w@ =~= args@.subrange(k3, k3 + 2));
+                            assert(w@[0] == args@[k3] && w@[1] == args@[k3 + 1]);
+                            lemma_s_window(fargs@, args@, k3);
+                        }
+//@@ after /formula\.push\(','\);/
+                        proof { k3 = k3 + 1; }
+//@@ before /formula\.pop\(\);/
+                    proof { ext_len(hd, formula@); ext_trans(base, hd, formula@); ext_drop_last(base, formula@); }
+//@@ before /\}\s*0x23 \| 0x43 \| 0x63 =>/
+                proof {
+                    if argc > 0 {
+                        lemma_s_cut(f_in, st_in, stack@.len() - 1, formula@, stack@);
+                    } else {
+                        lemma_s_append(f_in, st_in, formula@, stack@);
+                    }
+                }
+//@@ end
+}
+}
+
+// ---- witnesses: the hypothesis of the functional copies (`render(..) is Some`) is satisfiable, e.g. by the formula `=1` (PtgInt 1)
+proof fn witness_requires(c: Ctx) {
+    let all = seq![3u8, 0u8, 0x1Eu8, 1u8, 0u8];
+    let rg = all.subrange(2, 5);
+    assert(le16(all) == 3);
+    assert(rg =~= seq![0x1Eu8, 1u8, 0u8]);
+    reveal(decode);
+    assert(decode(rg, c) == t_int(rg.skip(1)));
+    assert(rg.skip(1).len() == 2);
+    let t = dec(le16(rg.skip(1)) as nat);
+    assert(step(rg, Seq::empty(), c) == Some((3int, Seq::<Seq<char>>::empty().push(t))));
+    assert(rg.skip(3) =~= Seq::<u8>::empty());
+    lemma_run_step(rg, Seq::empty(), c);
+    lemma_run_step(rg.skip(3), Seq::<Seq<char>>::empty().push(t), c);
+    assert(render(all, c) == Some(t));
+    // lemma hypotheses of the shape `repr(f, st, ops)`: the empty state
+    lemma_repr_basics(Seq::empty(), Seq::empty(), Seq::empty());
+    // sorted_bnds: the empty state
+    lemma_sb_last(Seq::empty(), Seq::empty());
 }
 
 } // verus!
